@@ -140,6 +140,26 @@ pub fn issuers() -> Issuers {
         list.push(IssuerReal { spec: IssuerSpec { dn, key_id: KeyIdSpec::Sha256, key: KeyPub { alg, raw }, key_usages: vec![] }, cert, key: kp });
         labels.push(format!("cdp={}", l));
     }
+    // the issuer's Certificate object was made with ANOTHER key than the key that signs the list (a CA whose key was rolled
+    // over, its certificate object re-created from parameters): the list is signed by, and its authority key identifier
+    // identifies, the key that signs
+    {
+        let alg = Alg::Ed25519;
+        let raw = fake_pub(alg, 0x33);
+        let (kp, _log) = stub_key(alg, &raw);
+        let old_raw = fake_pub(alg, 0x35);
+        let (old_kp, _l2) = stub_key(alg, &old_raw);
+        let dn = DnSpec::cn("crl issuer");
+        let mut st = crate::glue::base_cert_state();
+        st.dn = dn.clone();
+        st.key_id = KeyIdSpec::Sha256;
+        st.is_ca = IsCaSpec::Unconstrained;
+        st.not_before = TimeSpec::ymdhms(2001, 2, 3, 4, 5, 6);
+        st.not_after = TimeSpec::ymdhms(2061, 7, 8, 9, 10, 11);
+        let cert = crate::glue::to_params(&st).expect("issuer params").self_signed(&old_kp).expect("issuer certificate under the earlier key");
+        list.push(IssuerReal { spec: IssuerSpec { dn, key_id: KeyIdSpec::Sha256, key: KeyPub { alg, raw }, key_usages: vec![] }, cert, key: kp });
+        labels.push("provenance=certificate object made with an earlier key".into());
+    }
     // issuers whose Certificate object came into being in another way than self-signing: an intermediate issued by a
     // root, a certificate issued from a parsed request, and a CA re-created from an import. The CRL must name and
     // identify them exactly as it does a self-signed issuer with the same name, key and key usages.
@@ -215,6 +235,14 @@ pub fn crl_space(iss: &Issuers, conformant_only: bool) -> Space<CrlCase> {
             let (u, s) = (uris.clone(), scope);
             d = d.v(format!("{} {}", ul, sl), move |c: &mut CrlCase| c.st.idp = Some(IdpSpec { uris: u.clone(), scope: s }));
         }
+    }
+    // (appended) URIs of one point in a relation: equal up to letter case, equal, one a prefix of the other
+    for (ul, uris) in [
+        ("3 uris, the second the first's lower-case twin", vec!["http://crl.example/Root.crl".to_string(), "http://crl.example/root.crl".to_string(), "HTTP://CRL.EXAMPLE/ROOT.CRL".to_string()]),
+        ("the same uri twice, then a prefix of it", vec!["http://crl.example/a".to_string(), "http://crl.example/a".to_string(), "http://crl.example/".to_string()]),
+    ] {
+        let u = uris.clone();
+        d = d.v(format!("{} no scope", ul), move |c: &mut CrlCase| c.st.idp = Some(IdpSpec { uris: u.clone(), scope: None }));
     }
     dims.push(d);
     let at = near_atoms();
